@@ -244,7 +244,11 @@ func TestVerifMain(t *testing.T) {
 	modelCases := 0
 	start := time.Now()
 	curPath := filepath.Join(outDir, "cur_case.txt")
+	timeBudget := time.Duration(vEnvInt("VERIF_TIME_BUDGET_S", 0)) * time.Second
 	for ci, c := range cases {
+		if timeBudget > 0 && time.Since(start) > timeBudget {
+			break // search mode: bounded wall time per seed
+		}
 		// if the process dies inside this case (a fault in the library is not recoverable) the driver finds it here
 		os.WriteFile(curPath, []byte("# origin "+c.origin+"\n"+strings.Join(c.ops, "\n")+"\n"), 0o644)
 		tCase := time.Now()
